@@ -600,7 +600,8 @@ Section Fin2.
               else let s3 := advance s2 nr in
                    if nr =? 0 then abort (set_res s3) None
                    else match first_bad s3 nr with
-                        | Some j => abort s3 (Some ([j], EVerify))
+                        | Some (_, VHash) => abort s3 (Some ([], EBroadcastHash))
+                        | Some (j, _) => abort s3 (Some ([j], EVerify))
                         | None => finalize view_hash own_fp f s3 end
            | _ => s2 end
     | _ => s end.
@@ -615,9 +616,11 @@ Section Fin2.
         else
           let s1 := store s m in
           if negb (h_cur s1 =? m_round m) then s1
-          else if (if m_bcast m then verify_bcast s1 m else verify_p2p s1 m)
-               then finalize view_hash own_fp (fuel_of s1) s1
-               else abort s1 (Some ([m_from m], EVerify))
+          else match (if m_bcast m then verify_bcast s1 m else verify_p2p s1 m) with
+               | VOk => finalize view_hash own_fp (fuel_of s1) s1
+               | VBad => abort s1 (Some ([m_from m], EVerify))
+               | VHash => abort s1 (Some ([], EBroadcastHash))
+               end
     | _ => s
     end.
   Proof. reflexivity. Qed.
@@ -925,12 +928,18 @@ Section Ext.
               sh_final (h_shape s) <= h_cur s ->
               existsb (Nat.eqb 0) (h_reached s) = false ->
               fcase f s (abort (set_res (advance (fs2 s) 0)) None)
-  | FC_bad : forall j, h_rt s = Running -> h_cur s <> 0 -> all_in s = true ->
+  | FC_bad : forall j v, h_rt s = Running -> h_cur s <> 0 -> all_in s = true ->
               check_broadcast_hash (fs1 s) = true -> h_rt (fs2 s) = Running ->
               h_cur s < sh_final (h_shape s) ->
               existsb (Nat.eqb (S (h_cur s))) (h_reached s) = false ->
-              first_bad (fs3 s) (S (h_cur s)) = Some j ->
+              first_bad (fs3 s) (S (h_cur s)) = Some (j, v) -> v <> VHash ->
               fcase f s (abort (fs3 s) (Some ([j], EVerify)))
+  | FC_badhash : forall j, h_rt s = Running -> h_cur s <> 0 -> all_in s = true ->
+              check_broadcast_hash (fs1 s) = true -> h_rt (fs2 s) = Running ->
+              h_cur s < sh_final (h_shape s) ->
+              existsb (Nat.eqb (S (h_cur s))) (h_reached s) = false ->
+              first_bad (fs3 s) (S (h_cur s)) = Some (j, VHash) ->
+              fcase f s (abort (fs3 s) (Some ([], EBroadcastHash)))
   | FC_next : h_rt s = Running -> h_cur s <> 0 -> all_in s = true ->
               check_broadcast_hash (fs1 s) = true -> h_rt (fs2 s) = Running ->
               h_cur s < sh_final (h_shape s) ->
@@ -961,7 +970,8 @@ Section Ext.
         [apply FC_stay; auto; right; now rewrite Hf|].
       apply Nat.leb_gt in Hf.
       cbn [Nat.eqb]. fold (fs3 s).
-      destruct (first_bad (fs3 s) (S (h_cur s))) eqn:Hfb; [now apply FC_bad|now apply FC_next].
+      destruct (first_bad (fs3 s) (S (h_cur s))) as [[j v]|] eqn:Hfb; [|now apply FC_next].
+      destruct v; [eapply FC_bad; eauto; discriminate|eapply FC_bad; eauto; discriminate|now eapply FC_badhash; eauto].
   Qed.
 
   Lemma fs1_cur s : h_cur (fs1 s) = h_cur s.
@@ -988,6 +998,9 @@ Section Ext.
     - exact H12.
     - eapply ext_trans; [apply own_entry_stable|exact H12|].
       eapply ext_trans; [apply own_entry_stable|apply ext_set_res_advance|apply ext_abort].
+    - eapply ext_trans; [apply own_entry_stable|exact H12|].
+      eapply ext_trans; [apply own_entry_stable|apply ext_advance|apply ext_abort].
+      unfold fs2, fs1. autorewrite with hp. lia.
     - eapply ext_trans; [apply own_entry_stable|exact H12|].
       eapply ext_trans; [apply own_entry_stable|apply ext_advance|apply ext_abort].
       unfold fs2, fs1. autorewrite with hp. lia.
@@ -1033,6 +1046,7 @@ Section Acc.
     destruct (if m_bcast m then _ else _).
     - eapply ext_trans; [apply acc_entry_stable|apply ext_store|].
       eapply ext_weaken; [|apply ext_finalize]. intros e He. now left.
+    - eapply ext_trans; [apply acc_entry_stable|apply ext_store|apply ext_abort].
     - eapply ext_trans; [apply acc_entry_stable|apply ext_store|apply ext_abort].
   Qed.
 End Acc.
@@ -1415,6 +1429,12 @@ Section Wf2.
       + now apply hwf_res_false.
       + now apply fs2_checked.
       + intros Hr. now apply fs2_complete.
+    - apply hwf_abort. unfold SystemProofs.fs3. rewrite <- (fs2_cur s).
+      assert (W2 := hwf_fs2 s W H0 H1).
+      apply hwf_advance; auto; rewrite ?fs2_res, ?fs2_cur, ?fs2_shape.
+      + now apply hwf_res_false.
+      + now apply fs2_checked.
+      + intros Hr. now apply fs2_complete.
     - apply IH. unfold SystemProofs.fs3. rewrite <- (fs2_cur s).
       assert (W2 := hwf_fs2 s W H0 H1).
       apply hwf_advance; auto; rewrite ?fs2_res, ?fs2_cur, ?fs2_shape.
@@ -1443,7 +1463,7 @@ Section Wf2.
     { apply hwf_store; auto. pose proof (can_accept_not_stale s m Hca Hr0).
       unfold passed. intros [_ [H'|H']]; [lia|congruence]. }
     destruct (negb _); auto.
-    destruct (if m_bcast m then _ else _); [now apply hwf_finalize|now apply hwf_abort].
+    destruct (if m_bcast m then _ else _); [now apply hwf_finalize|now apply hwf_abort|now apply hwf_abort].
   Qed.
 
   Lemma hwf_init self n ssid proto sh : hwf (init_state self n ssid proto sh).
@@ -1457,7 +1477,7 @@ Section Wf2.
 End Wf2.
 
 (* ================================================================== *)
-(* 5. Who can be named by an EVerify abort (single handler)            *)
+(* 5. Who can be named by an abort (single handler)                    *)
 (* ================================================================== *)
 Section Blame.
   Variable view_hash : nat -> list N -> N.
@@ -1468,75 +1488,110 @@ Section Blame.
   Notation fs2 := (fs2 view_hash own_fp).
   Notation fs3 := (fs3 view_hash own_fp).
 
-  (* valid at this recipient and of a kind the round expects *)
-  Definition good (s : hstate) (x : msg) : Prop :=
-    m_valid x = true
-    /\ (m_bcast x = true -> sh_bcast (h_shape s) (m_round x) = true)
+  (* of a kind the round expects *)
+  Definition conf (s : hstate) (x : msg) : Prop :=
+    (m_bcast x = true -> sh_bcast (h_shape s) (m_round x) = true)
     /\ (m_bcast x = false -> p2p_some (sh_p2p (h_shape s) (m_round x)) = true).
+
+  (* expected by the round, and either flagged valid or sent under a different view of the previous round
+     (the latter is permanent: digests are never overwritten) *)
+  Definition good (s : hstate) (x : msg) : Prop :=
+    conf s x /\ (m_valid x = true \/ same_view s x = false).
 
   Definition egood (s : hstate) : Prop :=
     forall r j x, In (r, j, x) (h_qb s) \/ In (r, j, x) (h_qp s) -> m_from x <> E -> good s x.
 
+  (* EVerify names only E; EBroadcastHash names nobody *)
   Definition einv (s : hstate) : Prop :=
-    forall c, h_err s = Some (c, EVerify) -> incl c [E].
+    forall c k, h_err s = Some (c, k) ->
+                (k = EVerify -> incl c [E]) /\ (k = EBroadcastHash -> c = []).
 
-  Lemma good_static s s' x : h_shape s' = h_shape s -> good s x -> good s' x.
-  Proof. unfold good. now intros ->. Qed.
-
-  Lemma verify_p2p_good s p : good s p -> m_bcast p = false -> verify_p2p s p = true.
+  Lemma good_mono s s' x :
+    h_shape s' = h_shape s ->
+    (forall r d, hget (h_hashes s) r = Some d -> hget (h_hashes s') r = Some d) ->
+    good s x -> good s' x.
   Proof.
-    intros (Hv & _ & Hp) Hb. unfold verify_p2p.
-    destruct (negb _); auto. destruct (_ && _); auto.
-    specialize (Hp Hb). destruct (sh_p2p (h_shape s) (m_round p)); auto.
+    intros Hs Hh [Hc Hv]. unfold good, conf. rewrite Hs. split; auto.
+    destruct Hv as [Hv|Hv]; auto. right. unfold same_view in *.
+    destruct (hget (h_hashes s) (m_round x - 1)) eqn:Hg; [|discriminate].
+    now rewrite (Hh _ _ Hg).
+  Qed.
+
+  Lemma verify_p2p_good s p : good s p -> m_bcast p = false -> verify_p2p s p <> VBad.
+  Proof.
+    intros ((_ & Hp) & Hv) Hb. unfold verify_p2p.
+    destruct (negb _); [discriminate|]. destruct (_ && _); [discriminate|].
+    destruct (same_view s p) eqn:Hsv; cbn [negb]; [|discriminate].
+    destruct Hv as [Hv|Hv]; [|discriminate]. rewrite Hv.
+    specialize (Hp Hb). destruct (sh_p2p (h_shape s) (m_round p)); discriminate.
   Qed.
 
   Lemma verify_bcast_good s x :
-    hwf s -> egood s -> good s x -> m_bcast x = true -> m_from x <> E -> verify_bcast s x = true.
+    hwf s -> egood s -> good s x -> m_bcast x = true -> m_from x <> E -> verify_bcast s x <> VBad.
   Proof.
-    intros W G (Hv & Hbc & _) Hb HE. unfold verify_bcast.
-    destruct (negb (existsb _ _)); auto. rewrite (Hbc Hb), Hv. cbn [negb].
-    destruct (sh_p2p (h_shape s) (m_round x)) eqn:Hp; auto;
-      destruct (qget (h_qp s) (m_round x) (m_from x)) eqn:Hq; auto;
+    intros W G ((Hbc & _) & Hv) Hb HE. unfold verify_bcast.
+    destruct (negb (existsb _ _)); [discriminate|].
+    destruct (same_view s x) eqn:Hsv; cbn [negb]; [|discriminate].
+    destruct Hv as [Hv|Hv]; [|discriminate]. rewrite (Hbc Hb), Hv. cbn [negb].
+    destruct (sh_p2p (h_shape s) (m_round x)) eqn:Hp; try discriminate;
+      destruct (qget (h_qp s) (m_round x) (m_from x)) eqn:Hq; try discriminate;
       apply qget_In in Hq; pose proof (w_qp _ _ W _ _ _ Hq) as (_ & Hf & Hbp & _);
       apply verify_p2p_good; auto; eapply G; eauto; congruence.
   Qed.
 
-  Lemma first_bad_E s r j : hwf s -> egood s -> first_bad s r = Some j -> j = E.
+  Lemma first_bad_E s r j v :
+    hwf s -> egood s -> first_bad s r = Some (j, v) -> v <> VHash -> j = E.
   Proof.
-    intros W G H. destruct (Nat.eq_dec j E) as [|Hne]; auto. exfalso.
-    unfold first_bad in H. destruct (sh_bcast (h_shape s) r).
-    - apply find_some in H as [_ H]. destruct (qget (h_qb s) r j) eqn:Hq; [|discriminate].
-      apply negb_true_iff in H. apply qget_In in Hq.
-      pose proof (w_qb _ _ W _ _ _ Hq) as (_ & Hf & Hb & _).
-      rewrite verify_bcast_good in H; auto; try congruence. eapply G; eauto. congruence.
-    - apply find_some in H as [_ H]. destruct (qget (h_qp s) r j) eqn:Hq; [|discriminate].
-      apply negb_true_iff in H. apply qget_In in Hq.
-      pose proof (w_qp _ _ W _ _ _ Hq) as (_ & Hf & Hb & _).
-      rewrite verify_p2p_good in H; auto; try congruence. eapply G; eauto. congruence.
+    intros W G H Hv. destruct (Nat.eq_dec j E) as [|Hne]; auto. exfalso.
+    unfold first_bad in H.
+    destruct (find _ (others s)) as [j'|] eqn:Hf; [|discriminate]. inversion H; subst j' v. clear H.
+    apply find_some in Hf as [_ Hf]. apply negb_true_iff in Hf.
+    unfold queued_verdict in *. destruct (sh_bcast (h_shape s) r).
+    - destruct (qget (h_qb s) r j) eqn:Hq; [|discriminate].
+      apply qget_In in Hq. pose proof (w_qb _ _ W _ _ _ Hq) as (_ & Hfr & Hb & _).
+      assert (Hg : verify_bcast s m <> VBad).
+      { apply verify_bcast_good; auto; try congruence. eapply G; eauto. congruence. }
+      destruct (verify_bcast s m); [discriminate|congruence|congruence].
+    - destruct (qget (h_qp s) r j) eqn:Hq; [|discriminate].
+      apply qget_In in Hq. pose proof (w_qp _ _ W _ _ _ Hq) as (_ & Hfr & Hb & _).
+      assert (Hg : verify_p2p s m <> VBad).
+      { apply verify_p2p_good; auto. eapply G; eauto. congruence. }
+      destruct (verify_p2p s m); [discriminate|congruence|congruence].
   Qed.
 
   Lemma own_entry_good s e : own_entry own_fp s e -> good s (snd e).
-  Proof. intros (o & Hb & Hs & ->). cbn. repeat split; auto. discriminate. Qed.
+  Proof. intros (o & Hb & Hs & ->). cbn. split; [split; auto; discriminate|now left]. Qed.
 
   Lemma egood_ext s s' :
     ext (own_entry own_fp) s s' -> egood s -> egood s'.
   Proof.
-    intros X G r j x Hin HE. apply (good_static s); [apply (x_shape _ _ _ X)|].
+    intros X G r j x Hin HE.
+    apply (good_mono s); [apply (x_shape _ _ _ X)|apply (x_hs _ _ _ X)|].
     destruct Hin as [Hin|Hin].
     - destruct (x_qbn _ _ _ X _ Hin) as [H|H]; [eapply G; eauto|]. now apply own_entry_good in H.
     - destruct (x_qpn _ _ _ X _ Hin) as [H|H]; [eapply G; eauto|]. now apply own_entry_good in H.
   Qed.
 
-  Lemma einv_abort s c k : einv s -> (k = EVerify -> incl c [E]) -> einv (abort s (Some (c, k))).
+  Lemma egood_same s s' :
+    h_shape s' = h_shape s -> h_hashes s' = h_hashes s -> h_qb s' = h_qb s -> h_qp s' = h_qp s ->
+    egood s -> egood s'.
   Proof.
-    intros I H c' Hc'. destruct (abort_err s (Some (c, k))) as [Eq|(ce & Eq1 & Eq2)].
+    intros H1 H2 H3 H4 G r j x Hin HE. rewrite H3, H4 in Hin.
+    apply (good_mono s); auto; [now rewrite H2|]. eapply G; eauto.
+  Qed.
+
+  Lemma einv_abort s c k :
+    einv s -> (k = EVerify -> incl c [E]) -> (k = EBroadcastHash -> c = []) ->
+    einv (abort s (Some (c, k))).
+  Proof.
+    intros I H1 H2 c' k' Hc'. destruct (abort_err s (Some (c, k))) as [Eq|(ce & Eq1 & Eq2)].
     - rewrite Eq in Hc'. now apply I.
-    - rewrite Eq2 in Hc'. inversion Eq1; subst. inversion Hc'; subst. now apply H.
+    - rewrite Eq2 in Hc'. inversion Eq1; subst. inversion Hc'; subst. auto.
   Qed.
 
   Lemma einv_abort_none s : einv s -> einv (abort s None).
   Proof.
-    intros I c' Hc'. destruct (abort_err s None) as [Eq|(ce & Eq1 & _)]; [|discriminate].
+    intros I c' k' Hc'. destruct (abort_err s None) as [Eq|(ce & Eq1 & _)]; [|discriminate].
     rewrite Eq in Hc'. now apply I.
   Qed.
 
@@ -1562,29 +1617,27 @@ Section Blame.
     revert s. induction f as [|f IH]; intros s W G I; auto.
     assert (X12 : ext (own_entry own_fp) s (fs2 s)).
     { eapply ext_trans; [apply own_entry_stable|apply ext_fs1|apply ext_fs2]. }
+    assert (G3 : h_cur s < sh_final (h_shape s) -> egood (fs3 s)).
+    { intros Hlt. eapply egood_ext; [|exact G]. eapply ext_trans; [apply own_entry_stable|exact X12|].
+      apply ext_advance. rewrite fs2_cur. lia. }
+    assert (I3 : einv (fs3 s)) by (eapply einv_same; [|exact I]; cbn; apply fs_err).
     destruct (finalize_cases view_hash own_fp f s).
     - exact I.
     - eapply einv_same; [|exact I]. apply fs_err.
-    - apply einv_abort; [|discriminate]. eapply einv_same; [|exact I]. apply fs_err.
+    - apply einv_abort; [|discriminate|auto]. eapply einv_same; [|exact I]. apply fs_err.
     - eapply einv_same; [|exact I]. apply fs_err.
     - apply einv_abort_none. eapply einv_same; [|exact I]. cbn. apply fs_err.
     - assert (W3 := hwf_fs3 s W H0 H1 H2).
-      assert (G3 : egood (fs3 s)).
-      { eapply egood_ext; [|exact G]. eapply ext_trans; [apply own_entry_stable|exact X12|].
-        apply ext_advance. rewrite fs2_cur. lia. }
-      apply einv_abort.
-      + eapply einv_same; [|exact I]. cbn. apply fs_err.
-      + intros _. rewrite (first_bad_E _ _ _ W3 G3 H6). apply incl_refl.
-    - assert (W3 := hwf_fs3 s W H0 H1 H2).
-      assert (G3 : egood (fs3 s)).
-      { eapply egood_ext; [|exact G]. eapply ext_trans; [apply own_entry_stable|exact X12|].
-        apply ext_advance. rewrite fs2_cur. lia. }
-      apply IH; auto. eapply einv_same; [|exact I]. cbn. apply fs_err.
+      apply einv_abort; auto; [|discriminate].
+      intros _. rewrite (first_bad_E _ _ _ _ W3 (G3 H4) H6 H7). apply incl_refl.
+    - apply einv_abort; auto. discriminate.
+    - assert (W3 := hwf_fs3 s W H0 H1 H2). apply IH; auto.
   Qed.
 
   Lemma egood_store s m : egood s -> (m_from m <> E -> good s m) -> egood (store s m).
   Proof.
-    intros G Hm r j x Hin HE. apply (good_static s); [now autorewrite with hp|].
+    intros G Hm r j x Hin HE.
+    apply (good_mono s); [now autorewrite with hp|intros; now autorewrite with hp|].
     destruct (store_cases s m) as [Eq|[(_&_&_&Eb&Ep)|(_&_&_&Ep&Eb)]].
     - rewrite Eq in Hin. eapply G; eauto.
     - rewrite Eb, Ep in Hin. destruct Hin as [[Hin|Hin]|Hin]; try (eapply G; eauto; fail).
@@ -1593,7 +1646,8 @@ Section Blame.
       inversion Hin; subst. auto.
   Qed.
 
-  (* one Accept: stored messages from parties other than E stay good, EVerify names only E *)
+  (* one Accept: stored messages from parties other than E stay good, EVerify names only E,
+     EBroadcastHash names nobody *)
   Lemma blame_accept s m :
     hwf s -> egood s -> einv s -> (m_round m <> 0 -> m_from m <> E -> good s m) ->
     egood (accept view_hash own_fp s m) /\ einv (accept view_hash own_fp s m).
@@ -1604,27 +1658,28 @@ Section Blame.
     apply orb_false_iff in Hg as [Hca _]. apply negb_false_iff in Hca.
     destruct (m_round m =? 0) eqn:Hr0.
     { split; [|apply einv_abort; auto; discriminate].
-      intros r j x Hin. autorewrite with hp in Hin. intros HE.
-      apply (good_static s); [now autorewrite with hp|]. eapply G; eauto. }
+      eapply egood_same; [| | | |exact G]; now autorewrite with hp. }
     apply Nat.eqb_neq in Hr0. cbv zeta.
     assert (W1 : hwf (store s m)).
     { apply hwf_store; auto. pose proof (can_accept_not_stale s m Hca Hr0).
       unfold passed. intros [_ [H'|H']]; [lia|congruence]. }
     assert (G1 : egood (store s m)) by (apply egood_store; auto).
     assert (I1 : einv (store s m)) by (eapply einv_same; [|exact I]; now autorewrite with hp).
+    assert (GA : forall e, egood (abort (store s m) e)).
+    { intros e. eapply egood_same; [| | | |exact G1]; now autorewrite with hp. }
     destruct (negb _); auto.
     destruct (if m_bcast m then _ else _) eqn:Hv.
     - split; [|now apply einv_finalize].
       eapply egood_ext; [apply ext_finalize|exact G1].
-    - split.
-      + intros r j x Hin. autorewrite with hp in Hin. intros HE.
-        apply (good_static (store s m)); [now autorewrite with hp|]. eapply G1; eauto.
-      + apply einv_abort; auto. intros _.
-        destruct (Nat.eq_dec (m_from m) E) as [->|Hne]; [apply incl_refl|]. exfalso.
-        assert (Gm : good (store s m) m) by (apply (good_static s); [now autorewrite with hp|auto]).
-        destruct (m_bcast m) eqn:Hb.
-        * rewrite verify_bcast_good in Hv; auto. discriminate.
-        * rewrite verify_p2p_good in Hv; auto. discriminate.
+    - split; [apply GA|].
+      apply einv_abort; auto; [|discriminate]. intros _.
+      destruct (Nat.eq_dec (m_from m) E) as [->|Hne]; [apply incl_refl|]. exfalso.
+      assert (Gm : good (store s m) m).
+      { apply (good_mono s); [now autorewrite with hp|intros; now autorewrite with hp|auto]. }
+      destruct (m_bcast m) eqn:Hb.
+      + now apply (verify_bcast_good (store s m) m W1 G1 Gm Hb Hne).
+      + now apply (verify_p2p_good (store s m) m Gm Hb).
+    - split; [apply GA|]. apply einv_abort; auto. discriminate.
   Qed.
 End Blame.
 
@@ -1928,8 +1983,10 @@ Section SysBlame.
   Variable validity : hstate -> msg -> bool.
   Variables (n : nat) (ssid proto : N) (sh : shape).
   Variable E : party.
-  (* every message of every honest party is valid at every recipient *)
-  Hypothesis honest_valid : forall s m, m_from m <> E -> m_valid m = true -> validity s m = true.
+  (* view-dependent validity: a valid message of an honest party is accepted by the recipient's round
+     whenever the view digest attached to it equals the recipient's digest of the previous round *)
+  Hypothesis honest_valid :
+    forall s m, m_from m <> E -> m_valid m = true -> same_view s m = true -> validity s m = true.
 
   Notation step := (step view_hash fp validity n).
   Notation run := (run view_hash fp validity n).
@@ -1941,10 +1998,7 @@ Section SysBlame.
   Definition binv (st : sys) : Prop := forall i, egood E (s_h st i) /\ einv E (s_h st i).
 
   Lemma egood_drain s k : egood E s -> egood E (drain k s).
-  Proof.
-    intros G r j x Hin HE. autorewrite with hp in Hin.
-    apply (good_static s); [now autorewrite with hp|]. eapply G; eauto.
-  Qed.
+  Proof. intros G. eapply egood_same; [| | | |exact G]; now autorewrite with hp. Qed.
 
   Lemma binv_deliver st net' to m :
     sinv st -> binv st -> (m_from m = E \/ (emitted st m /\ m_valid m = true)) ->
@@ -1960,8 +2014,8 @@ Section SysBlame.
     - exact G.
     - exact Ie.
     - intros Hr HE. cbn [m_from set_valid m'] in HE. destruct Hm as [Hm|[(o & Ho & Hmk) Hmv]]; [congruence|].
-      unfold good. cbn [m_valid m_bcast m_round set_valid m'].
-      rewrite honest_valid by auto. split; auto.
+      unfold good, conf, same_view. cbn [m_valid m_bcast m_round m_bv set_valid m'].
+      split; [|fold (same_view s m); destruct (same_view s m) eqn:Hsv; [left; now apply honest_valid|now right]].
       destruct (i_static _ _ _ _ _ _ _ _ I to) as (_ & _ & _ & _ & S5). fold s in S5. rewrite S5.
       destruct (i_static _ _ _ _ _ _ _ _ I (m_from m)) as (_ & _ & _ & _ & S5').
       pose proof (w_conf _ _ (i_wf _ _ _ _ _ _ _ _ I (m_from m)) o Ho) as Hc. unfold out_conf in Hc.
@@ -1995,7 +2049,7 @@ Section SysBlame.
   Proof.
     intros i. cbn [s_h System.init_sys]. unfold start_handler.
     assert (G0 : egood E (init_state i n ssid proto sh)) by (intros r j x [[]|[]]).
-    assert (I0 : einv E (init_state i n ssid proto sh)) by (intros c Hc; discriminate Hc).
+    assert (I0 : einv E (init_state i n ssid proto sh)) by (intros c k Hc; discriminate Hc).
     split.
     - apply egood_drain. eapply egood_ext; [apply ext_finalize|exact G0].
     - assert (H : einv E (new_handler view_hash (own_fp_of fp i) i n ssid proto sh)).
@@ -2003,15 +2057,39 @@ Section SysBlame.
       eapply einv_same; [|exact H]. now autorewrite with hp.
   Qed.
 
-  Theorem blame_sound_given_valid sched A c :
+  Theorem blame_sound sched A c k :
     authenticb E sched = true ->
-    h_err (s_h (run init_sys sched) A) = Some (c, EVerify) -> incl c [E].
+    h_err (s_h (run init_sys sched) A) = Some (c, k) ->
+    (k = EVerify -> incl c [E]) /\ (k = EBroadcastHash -> c = []).
   Proof.
     intros Hau Herr.
     pose proof (binv_run sched init_sys (sinv_init _ _ _ _ _ _ _) binv_init (authenticb_spec _ _ Hau)) as Bv.
     destruct (Bv A) as [_ Ie]. now apply Ie.
   Qed.
 End SysBlame.
+
+(* the instance for the oracle of Model/System.v *)
+Lemma view_dependent_valid_ok E s m :
+  m_from m <> E -> m_valid m = true -> same_view s m = true -> view_dependent_valid s m = true.
+Proof. intros _ Hv Hs. unfold view_dependent_valid. rewrite Hv. exact Hs. Qed.
+
+Theorem blame_sound_view_dependent view_hash fp n ssid proto sh E sched A c k :
+  authenticb E sched = true ->
+  h_err (s_h (run view_hash fp view_dependent_valid n (init_sys view_hash fp n ssid proto sh) sched) A) = Some (c, k) ->
+  (k = EVerify -> incl c [E]) /\ (k = EBroadcastHash -> c = []).
+Proof. apply blame_sound. apply view_dependent_valid_ok. Qed.
+
+(* special case: an oracle that never rejects a valid message of an honest party *)
+Theorem blame_sound_given_valid view_hash fp validity n ssid proto sh E :
+  (forall s m, m_from m <> E -> m_valid m = true -> validity s m = true) ->
+  forall sched A c,
+  authenticb E sched = true ->
+  h_err (s_h (run view_hash fp validity n (init_sys view_hash fp n ssid proto sh) sched) A) = Some (c, EVerify) ->
+  incl c [E].
+Proof.
+  intros Hv sched A c Hau Herr.
+  destruct (blame_sound view_hash fp validity n ssid proto sh E (fun s m H1 H2 _ => Hv s m H1 H2) sched A c EVerify Hau Herr); auto.
+Qed.
 
 (* ================================================================== *)
 (* 7. All-honest runs: the handler follows the ideal (lockstep) run    *)
@@ -2231,23 +2309,43 @@ Section Ideal.
       pose proof (hash_upd_sets view_hash s v Hb' Hq Hv) as Hs. unfold SystemProofs.fs1 in Hh. congruence.
   Qed.
 
-  Lemma egood_HC s : HC s -> egood n s.
+  Lemma same_view_ideal s bc r j x : HC s -> ideal_entry bc r j x -> same_view s x = true.
   Proof.
-    intros C r j x Hin _. destruct (c_static _ C) as (_ & _ & _ & _ & S5). unfold good. rewrite S5.
-    destruct Hin as [Hin|Hin].
-    - apply (c_qb _ C) in Hin as (Hr&_&Hb&_&Hv&_&_&Hbc&_). rewrite Hb, Hr. repeat split; auto.
-      + intros _. now apply Hbc.
-      + discriminate.
-    - apply (c_qp _ C) in Hin as (Hr&_&Hb&_&Hv&_&_&_&Hp). rewrite Hb, Hr. repeat split; auto. discriminate.
+    intros C (Hr&_&_&Hbv&_). unfold same_view. rewrite Hr.
+    destruct (hget (h_hashes s) (r - 1)) eqn:Hh; auto.
+    apply (c_hs _ C) in Hh as (-> & _). now apply N.eqb_eq.
+  Qed.
+
+  Lemma verify_p2p_ideal s r j p : HC s -> ideal_entry false r j p -> verify_p2p s p = VOk.
+  Proof.
+    intros C Hp. pose proof (same_view_ideal s _ _ _ _ C Hp) as Hsv.
+    destruct (c_static _ C) as (_ & _ & _ & _ & S5).
+    destruct Hp as (Hr&_&_&_&Hv&_&_&_&Hpp). unfold verify_p2p.
+    destruct (negb _); auto. destruct (_ && _); auto. rewrite Hsv, Hv, S5, Hr. cbn [negb].
+    specialize (Hpp eq_refl). destruct (sh_p2p sh r); [discriminate|auto|auto].
+  Qed.
+
+  Lemma verify_bcast_ideal s r j x : HC s -> ideal_entry true r j x -> verify_bcast s x = VOk.
+  Proof.
+    intros C Hx. pose proof (same_view_ideal s _ _ _ _ C Hx) as Hsv.
+    destruct (c_static _ C) as (_ & _ & _ & _ & S5).
+    destruct Hx as (Hr&Hf&_&_&Hv&_&_&Hb&_). destruct (Hb eq_refl) as [_ Hbc]. unfold verify_bcast.
+    destruct (negb (existsb _ _)); auto. rewrite Hsv, Hv, S5, Hr, Hbc. cbn [negb].
+    destruct (sh_p2p sh r); auto;
+      destruct (qget (h_qp s) r (m_from x)) eqn:Hq; auto;
+      apply qget_In in Hq; apply (c_qp _ C) in Hq; eapply verify_p2p_ideal; eauto.
   Qed.
 
   Lemma first_bad_none s r : hwf s -> HC s -> first_bad s r = None.
   Proof.
-    intros W C. destruct (first_bad s r) as [j|] eqn:Hf; auto. exfalso.
-    pose proof (first_bad_E view_hash n s r j W (egood_HC s C) Hf) as ->.
-    unfold first_bad in Hf. destruct (c_static _ C) as (_ & Sn & _).
-    destruct (sh_bcast (h_shape s) r); apply find_some in Hf as [Hin _];
-      apply In_others in Hin; lia.
+    intros _ C. unfold first_bad.
+    destruct (find _ (others s)) as [j|] eqn:Hf; auto. exfalso.
+    apply find_some in Hf as [_ Hf]. apply negb_true_iff in Hf.
+    unfold queued_verdict in Hf. destruct (sh_bcast (h_shape s) r).
+    - destruct (qget (h_qb s) r j) eqn:Hq; [|discriminate]. apply qget_In in Hq.
+      apply (c_qb _ C) in Hq. rewrite (verify_bcast_ideal s _ _ _ C Hq) in Hf. discriminate.
+    - destruct (qget (h_qp s) r j) eqn:Hq; [|discriminate]. apply qget_In in Hq.
+      apply (c_qp _ C) in Hq. rewrite (verify_p2p_ideal s _ _ _ C Hq) in Hf. discriminate.
   Qed.
 
   Lemma pick_other : exists j, j < n /\ j <> i.
@@ -2516,7 +2614,7 @@ Section Ideal.
       split; auto. destruct (h_cur s - c0) as [|[|k]] eqn:Ek; lia. }
     assert (X12 : ext (own_entry ofp) s (fs2 s)).
     { eapply ext_trans; [apply own_entry_stable|apply ext_fs1|apply ext_fs2]. }
-    destruct (finalize_cases view_hash ofp f s) as [H|H1 H2 H3|H1 H2 H3 H4|H1 H2 H3 H4 H5|H1 H2 H3 H4 H5 H6 H7|j H1 H2 H3 H4 H5 H6 H7 H8|H1 H2 H3 H4 H5 H6 H7 H8].
+    destruct (finalize_cases view_hash ofp f s) as [H|H1 H2 H3|H1 H2 H3 H4|H1 H2 H3 H4 H5|H1 H2 H3 H4 H5 H6 H7|j v H1 H2 H3 H4 H5 H6 H7 H8 H9|j H1 H2 H3 H4 H5 H6 H7 H8|H1 H2 H3 H4 H5 H6 H7 H8].
     - exfalso. destruct H as [H|H]; [apply H, (c_rt _ C)|lia].
     - split; [exact C1|right]. now rewrite all_in_fs1.
     - exfalso. rewrite (check_ok _ C1) in H4. discriminate.
@@ -2528,6 +2626,10 @@ Section Ideal.
     - destruct (Hcap H3) as [Hle Hpn]. rewrite S5 in H6. split.
       + now apply HC_done.
       + left. now autorewrite with hp.
+    - exfalso. destruct (Hcap H3) as [Hle Hpn]. rewrite S5 in H6.
+      destruct (HC_fs3 s C Hr H3 Hpn H6) as [C3 _].
+      pose proof (hwf_fs3 view_hash ofp s W H2 H3 H4) as W3.
+      rewrite (first_bad_none _ _ W3 C3) in H8. discriminate.
     - exfalso. destruct (Hcap H3) as [Hle Hpn]. rewrite S5 in H6.
       destruct (HC_fs3 s C Hr H3 Hpn H6) as [C3 _].
       pose proof (hwf_fs3 view_hash ofp s W H2 H3 H4) as W3.
@@ -2595,16 +2697,11 @@ Section Ideal.
 
   Lemma verify_ideal s m :
     hwf s -> HC s -> ideal_entry (m_bcast m) (m_round m) (m_from m) m ->
-    (if m_bcast m then verify_bcast s m else verify_p2p s m) = true.
+    (if m_bcast m then verify_bcast s m else verify_p2p s m) = VOk.
   Proof.
-    intros W C Hm. destruct (c_static _ C) as (_ & _ & _ & _ & S5).
-    assert (G : good s m).
-    { destruct Hm as (_&_&_&_&Hv&_&_&Hb&Hp). unfold good. rewrite S5. repeat split; auto.
-      intros H. now apply Hb. }
-    destruct (m_bcast m) eqn:Hb.
-    - apply (verify_bcast_good view_hash n); auto. apply egood_HC; auto.
-      destruct Hm as (_&_&_&_&_&_&Hj&_). lia.
-    - now apply verify_p2p_good.
+    intros _ C Hm. destruct (m_bcast m) eqn:Hb.
+    - eapply verify_bcast_ideal; eauto.
+    - eapply verify_p2p_ideal; eauto.
   Qed.
 
   Lemma accept_ideal s m :
@@ -3339,7 +3436,9 @@ Lemma last_round_not_covered :
 Proof. vm_compute. repeat split; reflexivity. Qed.
 
 (* C04: round-3 validity depends on the round-2 view; E equivocates round 2; honest A = 0 then receives
-   honest B = 1's authentic round-3 broadcast *)
+   honest B = 1's authentic round-3 broadcast.  With the repaired handler (view check right before a
+   message is processed) nobody is named.  (At the pinned commit this run ended with A naming B and B
+   naming A -- defect D7.) *)
 Definition blame_run0 : sys :=
   run vh_pos fp_cantor view_dependent_valid 3 (init_sys vh_pos fp_cantor 3 7 9 shape_bb3) equiv_sched.
 Definition blame_msgB : msg :=
@@ -3347,7 +3446,7 @@ Definition blame_msgB : msg :=
 Definition blame_run : sys :=
   run vh_pos fp_cantor view_dependent_valid 3 blame_run0 [Deliver 0 1; Deliver 1 1].
 
-Lemma handler_blame_refuted :
+Lemma equivocation_names_nobody :
   authenticb 2 (equiv_sched ++ [Deliver 0 1; Deliver 1 1]) = true
   (* B's message is authentic: it is in flight, emitted by B's honest handler, for round 3 *)
   /\ In (0, blame_msgB) (s_net blame_run0)
@@ -3358,15 +3457,24 @@ Lemma handler_blame_refuted :
   /\ stored_fp (s_h blame_run0 0) 2 2 <> stored_fp (s_h blame_run0 1) 2 2
   /\ view_dependent_valid (s_h blame_run0 0) blame_msgB = false
   /\ view_dependent_valid (s_h blame_run0 1) blame_msgB = true
-  (* the digest comparison, had it been made on arrival, fails: nobody would be named *)
-  /\ check_broadcast_hash (store (s_h blame_run0 0) blame_msgB) = false
-  (* but verification runs first: honest A names honest B, and honest B names honest A *)
-  /\ h_err (s_h blame_run 0) = Some ([1], EVerify)
-  /\ h_err (s_h blame_run 1) = Some ([0], EVerify).
+  /\ same_view (s_h blame_run0 0) blame_msgB = false
+  (* the view comparison is made before the message is verified: nobody is named, on either side *)
+  /\ h_err (s_h blame_run 0) = Some ([], EBroadcastHash)
+  /\ h_err (s_h blame_run 1) = Some ([], EBroadcastHash).
 Proof.
   vm_compute. repeat split; try reflexivity; try discriminate;
     repeat (first [left; reflexivity | right]).
 Qed.
+
+(* the queued path: B's round-3 message reaches A while A is still in round 2 (it is stored, flagged
+   valid); A then completes round 2 with E's other version; the queued message is examined in finalize *)
+Definition early_sched : list sched_ev :=
+  [Inject 1 (equiv_msg 222); Deliver 1 0; Deliver 0 2; Inject 0 (equiv_msg 111); Deliver 0 0].
+Definition early_run : sys :=
+  run vh_pos fp_cantor view_dependent_valid 3 (init_sys vh_pos fp_cantor 3 7 9 shape_bb3) early_sched.
+Lemma equivocation_names_nobody_queued :
+  authenticb 2 early_sched = true /\ h_err (s_h early_run 0) = Some ([], EBroadcastHash).
+Proof. vm_compute. split; reflexivity. Qed.
 
 (* with the comparison done (validity not view dependent) the same equivocation ends without a culprit *)
 Definition blame_run_keep : sys :=
